@@ -22,6 +22,7 @@ which the peripheral in flight is reset to the very address the reply is outstan
 (`tainted = false` excludes exactly that); `never_panics` holds for all.
 -/
 import ProfiVerif.Lemmas.Dp03
+import ProfiVerif.Driver.DpOracle
 
 namespace PV.C03
 open PV PV.Dp
@@ -49,6 +50,50 @@ theorem reachable {fp : FdlParams} (hfp : FpOk fp) {slots : List (Option Periphe
     | panic => rw [hs] at h; cases h
     | hang => rw [hs] at h; cases h
     | refused => rw [hs] at h; cases h
+
+/-- The four flag tests of the bring-up state machine (`flags.contains(...)` on the decoded 16-bit
+word, bit form in the model) are exactly the arithmetic tests on the first two bytes of the reply:
+PRM_FAULT = bit 6 of byte 0, CFG_FAULT = bit 2 of byte 0, PRM_REQ = bit 0 of byte 1,
+STATION_NOT_READY = bit 1 of byte 0 (removing the permanent bit 10 does not touch any of them). -/
+theorem flag_tests_arith (pdu : Bytes) :
+    let f := (Diag.infoOf pdu).flags
+    let b0 := (pdu.getD 0 0).toNat
+    let b1 := (pdu.getD 1 0).toNat
+    (f &&& PARAMETER_FAULT = 0 ↔ b0 / 64 % 2 = 0) ∧
+    (f &&& CONFIGURATION_FAULT = 0 ↔ b0 / 4 % 2 = 0) ∧
+    (f &&& PARAMETER_REQUIRED = 0 ↔ b1 % 2 = 0) ∧
+    (f &&& STATION_NOT_READY = 0 ↔ b0 / 2 % 2 = 0) := by
+  intro f b0 b1
+  have hn : f.toNat = Diag.Spec.flagsNat pdu := Diag.flags_toNat _ _
+  have h0 := (pdu.getD 0 0).toNat_lt
+  have h1 := (pdu.getD 1 0).toNat_lt
+  have e6 : PARAMETER_FAULT = UInt16.ofNat (2 ^ 6) := by decide
+  have e2 : CONFIGURATION_FAULT = UInt16.ofNat (2 ^ 2) := by decide
+  have e8 : PARAMETER_REQUIRED = UInt16.ofNat (2 ^ 8) := by decide
+  have e1 : STATION_NOT_READY = UInt16.ofNat (2 ^ 1) := by decide
+  rw [e6, e2, e8, e1, and_pow_zero_iff f 6 (by decide), and_pow_zero_iff f 2 (by decide),
+    and_pow_zero_iff f 8 (by decide), and_pow_zero_iff f 1 (by decide), hn]
+  simp only [Diag.Spec.flagsNat]
+  show (_ ↔ b0 / 64 % 2 = 0) ∧ (_ ↔ b0 / 4 % 2 = 0) ∧ (_ ↔ b1 % 2 = 0) ∧ (_ ↔ b0 / 2 % 2 = 0)
+  have hb0 : (pdu.getD 0 0).toNat = b0 := rfl
+  have hb1 : (pdu.getD 1 0).toNat = b1 := rfl
+  rw [hb0, hb1]
+  split <;> refine ⟨?_, ?_, ?_, ?_⟩ <;> omega
+
+/-- The readiness test of the bring-up automaton (`readyFlags`, bit form, used by `bringUp_step` /
+`dx_only_when_ready`) IS the test the executable oracle `oracle3` applies to the reply bytes on the
+implementation's stream (`Driver.flagsReady`): the oracle judges the real code by the very predicate
+the theorems are about. -/
+theorem ready_flags_arith (t : Telegram) :
+    readyFlags t = PV.Driver.flagsReady (pduOf t) := by
+  have h := flag_tests_arith (pduOf t)
+  simp only at h
+  obtain ⟨h6, h2, h8, h1⟩ := h
+  rw [Bool.eq_iff_iff, readyFlags_iff]
+  simp only [PV.Driver.flagsReady, flagsOf, Bool.and_eq_true, beq_iff_eq, h6, h2, h8, h1]
+  constructor
+  · rintro ⟨a, b, c, d⟩; exact ⟨⟨⟨a, b⟩, d⟩, c⟩
+  · rintro ⟨⟨⟨a, b⟩, d⟩, c⟩; exact ⟨a, b, c, d⟩
 
 /-- The only upward moves of the bring-up automaton, in order. -/
 theorem bringUp_step (k : RKind) (t : Telegram) (s : Nat) :
